@@ -292,6 +292,48 @@ func (p *Path) specIntrinsic(n string, args []Value) (Value, bool) {
 			return mkBig(intLitValue(lit.S)), true
 		}
 		return mkUF("intlitval", SInt, lit), true
+	case "specOneToken":
+		lit := args[0].(*Term)
+		switch constStr(p, args[1], "token kind") {
+		case "STRING":
+			return mkInRe(lit, reStringTok), true
+		case "CHAR":
+			return mkInRe(lit, reQuotedRune), true
+		}
+		p.unsupported("specOneToken kind")
+	case "specIntConstIs", "specUintConstIs":
+		expr, typ, v := args[0].(*Term), constStr(p, args[1], "type name"), args[2].(*Term)
+		wrap := func(inner *Term) *Term {
+			if typ == "int" {
+				return inner
+			}
+			return mkConcat(mkStr(typ+"("), inner, mkStr(")"))
+		}
+		alts := []*Term{mkEq(expr, wrap(itoa(v)))}
+		alts = append(alts, mkAnd(mkLe(mkInt(0), v), mkEq(expr, wrap(gohex(v)))))
+		if typ == "uint8" {
+			w2 := func(inner *Term) *Term { return mkConcat(mkStr("byte("), inner, mkStr(")")) }
+			alts = append(alts, mkEq(expr, w2(itoa(v))), mkEq(expr, w2(gohex(v))))
+		}
+		return mkOr(alts...), true
+	case "specBoolConstIs":
+		return mkEq(args[0].(*Term), mkIte(args[1].(*Term), mkStr("true"), mkStr("false"))), true
+	case "specFloat64ConstIs":
+		expr, f := args[0].(*Term), args[1].(FloatVal)
+		t := fmtFloatSharpV(f)
+		return mkOr(
+			mkAnd(mkEq(expr, t), mkInRe(t, reHasDotOrExp)),
+			mkAnd(mkEq(expr, mkConcat(t, mkStr(".0"))), mkInRe(t, reSignedDigits)),
+		), true
+	case "specFloat32ConstIs":
+		expr, f := args[0].(*Term), args[1].(FloatVal)
+		return mkEq(expr, mkConcat(mkStr("float32("), fmtFloatSharpV(f), mkStr(")"))), true
+	case "specComplex128ConstIs":
+		expr, f := args[0].(*Term), args[1].(FloatVal)
+		return mkEq(expr, fmtFloatSharpV(f)), true
+	case "specComplex64ConstIs":
+		expr, f := args[0].(*Term), args[1].(FloatVal)
+		return mkEq(expr, mkConcat(mkStr("complex64"), fmtFloatSharpV(f))), true
 	case "specRuneLitValue":
 		lit := args[0].(*Term)
 		if lit.IsConst() {
